@@ -11,11 +11,13 @@ EXCS = ['ValueError', 'KeyError', 'TypeError', 'RuntimeError', 'OSError',
         'StopIteration', 'Exception', 'AssertionError', 'UnicodeError',
         'NotImplementedError', 'SystemExit', 'UnhashableError', 'SyntaxError',
         'IndentationError', 'ImportError', 'RecursionError', 'BlockingIOError',
-        'EOFError', 'LookupError', 'ArithmeticError']
+        'EOFError', 'LookupError', 'ArithmeticError', 'CompiledSyntaxError',
+        'CompiledSyntaxError']
 # messages a formatter might trip over: empty, format characters, a line that
 # looks like a traceback location without its ', in name' part, escape sequences
 MSGS = ['', '%s %d %(x)s', '  File "x.py", line 3', 'two\nlines', 'tab\there', '\x1b[31mred',
-        'File "y.py", line 1, in f', '{0} {}', 'caf\u00e9 \u2603']
+        'File "y.py", line 1, in f', '{0} {}', 'caf\u00e9 \u2603',
+        'first line\n  File "z.py", line 7\n    indented', 'x\n  File']
 
 
 CHAINS = ['cause', 'context', 'cause_group', 'cause_self', 'cause_cycle']
